@@ -18,6 +18,10 @@ from ..gen import tables as T
 def build_and_run(spec, sub, faults=None, same_object_runs=1, api='results'):
     """Runs in a sub-run child.  Returns a JSON-able dict with results and counters."""
     from dataflows import Flow, checkpoint
+    if spec.get('sample_size'):
+        # knob: the schema-inference sample; with a small one a source failure lands in the row phase, while the checkpoint is being written
+        import sys
+        sys.modules['dataflows.helpers.iterable_loader'].iterable_storage.SAMPLE_SIZE = spec['sample_size']
     counters = {'src': [0] * len(spec['tables']), 'steps': {}}
     faults = faults or {}
 
